@@ -43,7 +43,7 @@ pub fn run(args: &Args, rep: &mut Report) {
     scfg.props = ["C01"].into_iter().collect();
     scfg.lib_walk = false;
     scfg.trace = true;
-    let small = VolCfg { fat: 12, bps: 512, spc: 1, nfats: 2, root_entries: 64, clusters: 200, extra: 0, garbage: false, slack: 0 };
+    let small = VolCfg { fat: 12, bps: 512, spc: 1, nfats: 2, root_entries: 64, clusters: 200, extra: 0, garbage: false, slack: 0, used_device: false };
     // ---- every long-name length 1..=255 units (ASCII), and 2-byte characters up to the 255-byte limit
     let mut n = 0u64;
     for len in 1..=255usize {
